@@ -189,3 +189,6 @@ def _swap_label(env, ex, pre):
     mv.tracked_value['c'] = tr
     mv._tracked_keys.add('c')
     pre['mpred']['c'] = pre['mpred'].pop('b')
+
+
+META['explanation'] += ' Further groups: memoising model (same prediction object returned twice), input-dependent and swapped label sets, integer / NumPy typed losses, real river metrics (MAE, MSE) as loss, prefilled user storages, a storage that refuses an observation, long histories (6-8 calls) with the default-value imputer; model outputs must not be modified.'
